@@ -17,6 +17,8 @@ import (
 func propC17(c *Ctx) {
 	c.R.Explanation = "Decides the 'never panics' clause for the module and everything the export calls: both OpenAPI accessors reduce to one helper whose deferred recover assigns its NAMED results and which contains both the conversion and the JSON encoding, so every explicit panic, unchecked assertion, nil-able dereference and dependency panic below it (each listed as a covered site) is turned into the error result; no other library function calls the converter. Also: assignOperation covers every method NewHTTPMethod can produce, path parameters are appended only after Required was set to true, response keys are response codes or \"default\", and every collector that feeds path variables reads the directive list AFTER macro expansion. Not decided: structural validity of the produced document ($ref resolution, schema shapes), which the dependency produces from data."
 	c.rulePanicCover()
+	// the recover of toOpenAPI covers its own goroutine only
+	c.ruleSequentialAs("C17-NO-GOROUTINES")
 	c.ruleMethodExhaustive()
 	c.rulePathParamsRequired()
 	c.rulePathParamsComplete()
@@ -271,23 +273,44 @@ func (c *Ctx) rulePathParamsRequired() {
 // properties of the schema). A `{parameter}` of the path is declared only if neither loop can skip an element.
 func (c *Ctx) rulePathParamsComplete() {
 	r := c.R
-	r.Rule("C17-PATH-PARAMS-COMPLETE", "in getPathParams and in the converter whose result it ranges over, every loop that builds the returned list appends on every iteration (no continue, no conditional append): no property of the path schema is left without a parameter object", 2)
+	r.Rule("C17-PATH-PARAMS-COMPLETE", "in getPathParams and in the list-returning functions of the exporter it gets its list from (four levels), every loop that builds the returned list appends on every iteration (no continue, no conditional append): no property of the path schema is left without a parameter object", 2)
 	f := c.fn("catalog/ser/openapi", "getPathParams")
 	if f == nil {
 		r.Undecided("C17-PATH-PARAMS-COMPLETE", "anchor", "getPathParams not found", "")
 		return
 	}
+	// the chain of providers: the functions of the exporter package that getPathParams gets its list from, directly or
+	// through others (a ranged-over, returned or handed-on result of a call), four levels deep
 	fns := []*Fn{f}
-	ast.Inspect(f.Decl.Body, func(nd ast.Node) bool {
-		if rs, ok := nd.(*ast.RangeStmt); ok {
-			if call, _ := definingCall(f, rs.X); call != nil {
-				if g := c.fnOf(callee(f.Pkg, call)); g != nil {
-					fns = append(fns, g)
+	seenFn := map[*types.Func]bool{f.Obj: true}
+	for level, frontier := 0, []*Fn{f}; level < 4 && len(frontier) > 0; level++ {
+		var next []*Fn
+		for _, g := range frontier {
+			ast.Inspect(g.Decl.Body, func(nd ast.Node) bool {
+				call, ok := nd.(*ast.CallExpr)
+				if !ok {
+					return true
 				}
-			}
+				h := c.fnOf(callee(g.Pkg, call))
+				if h == nil || h.Pkg != f.Pkg || seenFn[h.Obj] {
+					return true
+				}
+				// only functions that hand back a list (first result a slice)
+				res := h.Obj.Type().(*types.Signature).Results()
+				if res.Len() == 0 {
+					return true
+				}
+				if _, isSlice := res.At(0).Type().Underlying().(*types.Slice); !isSlice {
+					return true
+				}
+				seenFn[h.Obj] = true
+				fns = append(fns, h)
+				next = append(next, h)
+				return true
+			})
 		}
-		return true
-	})
+		frontier = next
+	}
 	n := 0
 	for _, g := range fns {
 		pk := g.Pkg
